@@ -19,7 +19,7 @@ CHECKS = {
   "Per-entry results, raw content hash, dump and both indices of variant replicas are compared pairwise with a reference replica fed one entry per apply call, and with the model, for seeded logs mixing leader-indexed and plain entries; savers keep applying between PrepareSnapshot and SaveSnapshot and receivers are judged right after recovery against the prefix the snapshot stands for.",
   "Clean close/reopen only (crashes are C04); snapshot transfer driven through the state machine interface as dragonboat drives it."),
  "C09": ("exploration",
-  "runtime monitoring: relational oracle (prefix, ascending, limit, truthful more, message size, losslessness) over reads of the real FSM and real gRPC streams; streams requested with and without a deadline (gRPC and engine); point-in-time view monitor with a concurrent writer",
+  "runtime monitoring: relational oracle (prefix, ascending, limit, truthful more, message size, losslessness) over reads of the real FSM and real gRPC streams; streams requested with and without a deadline (gRPC and engine); engine sequences walked again after a walk that stopped at its first message; point-in-time view monitor with a concurrent writer",
   "Every read of a request family (limits m-2..m+2 and unlimited; full/keys_only/count_only; single read and stream) over generated contents incl. multi-MiB tables aligned on the 4 MiB cut is judged against the model's full answer; streams over real gRPC with the client's default message limit.",
   "Packing of pairs into messages is not judged; transport limit = gRPC default 4 MiB as regatta's clients use."),
  "C12": ("exploration",
